@@ -23,6 +23,14 @@
             sinks of appended handlers), separated by ';':
             record ids as ranges a-b joined by ',' ; X for a B sink (no file); G for a sink that is no longer
             part of the configuration when the process dies (removed: not a file sink of the logger any more)
+     SEVERAL SINKS ON ONE FILE: a sink letter F or R followed by @<k> (in the tree, in a + or ^ item) is a new sink (own
+            number) that logs to the file of sink k; &<k>:<n> = a second, short-lived Logger object with a file sink (own
+            number) on the file of sink k logs n info records (ids from 1000000, 10 bytes) and is destroyed (WScratch).
+            In such scenarios the output is per FILE: field j of a sink that logs to another sink's file is "=k"; field k
+            is G when no sink of the final configuration logs to file k, else the records of the file; for a file
+            that more than one sink wrote: all its streams (destroyed sinks included) merged and SORTED (the order in
+            which the streams interleave is not part of the model); mode oracle takes the ids in FILE order.
+            size 0 = the empty text, size -n = a text of n blanks (record length |size| + 1)
    mode "model" (default): the files at process death according to the model with the translated source
    mode "model-nth": the same with the source as compiled with -DQTLOGGER_NO_THREAD (src_fatal_cfg_nothread)
    mode "expected": what the property demands after qFatal (the specification [expected])
@@ -33,39 +41,52 @@ let rec pos_of_int n = if n = 1 then XH else if n land 1 = 1 then XI (pos_of_int
 let n_of_int n = if n <= 0 then N0 else Npos (pos_of_int n)
 let rec int_of_pos = function XH -> 1 | XO p -> 2 * int_of_pos p | XI p -> 2 * int_of_pos p + 1
 let int_of_n = function N0 -> 0 | Npos p -> int_of_pos p
+(* ids of the messages with an empty / blank text: the e and x filters of the harness read the id from the TEXT
+   ("even ids" takes a text without a number for id 0; the regular expression for odd ids does not match it) *)
+let blank : (int, unit) Hashtbl.t = Hashtbl.create 7
 let flt_of c : (mtype * rec0) -> bool = fun (ty, r) ->
   match c with
   | 'g' | 'y' -> ty = Debug
   | 'n' -> ty <> Fatal
-  | 'e' -> int_of_n r.rid land 1 = 0
-  | 'x' -> int_of_n r.rid land 1 = 1
+  | 'e' -> Hashtbl.mem blank (int_of_n r.rid) || int_of_n r.rid land 1 = 0
+  | 'x' -> not (Hashtbl.mem blank (int_of_n r.rid)) && int_of_n r.rid land 1 = 1
   | 'l' -> (ty = Warning || ty = Critical || ty = Fatal)
   | _ -> true
 (* sink ids are handed out in creation order: the tree first (depth-first), then the subtrees appended by
    reconfiguration events, in the order of the events *)
 let next_sid = ref 0
+let alias : (int, int) Hashtbl.t = Hashtbl.create 7      (* sink number -> the sink whose file it logs to *)
+let broken_sids : int list ref = ref []
 let parse_items (s : string) : tree list =
   let next = next_sid in
   let pos = ref 0 in
+  (* <sink letter>@<k>: the sink just numbered i logs to the file of sink k *)
+  let at_alias i =
+    if !pos < String.length s && s.[!pos] = '@' then begin
+      incr pos;
+      let st = !pos in
+      while !pos < String.length s && s.[!pos] >= '0' && s.[!pos] <= '9' do incr pos done;
+      Hashtbl.replace alias i (int_of_string (String.sub s st (!pos - st)))
+    end in
   let rec items () =
     if !pos >= String.length s then [] else
     match s.[!pos] with
     | ')' -> []
     | c -> incr pos;
       let it = (match c with
-        | 'F' | 'D' -> let i = !next in incr next; TSink (fresh (n_of_int i) false false)
-        | 'R' | 'r' | 'q' | 'Q' -> let i = !next in incr next; TSink (fresh (n_of_int i) true false)
-        | 'B' -> let i = !next in incr next; TSink (fresh (n_of_int i) false true)
+        | 'F' | 'D' -> let i = !next in incr next; at_alias i; TSink (fresh (n_of_int i) false false)
+        | 'R' | 'r' | 'q' | 'Q' -> let i = !next in incr next; at_alias i; TSink (fresh (n_of_int i) true false)
+        | 'B' -> let i = !next in incr next; broken_sids := i :: !broken_sids; TSink (fresh (n_of_int i) false true)
         | '(' -> let l = items () in (if !pos < String.length s && s.[!pos] = ')' then incr pos); TPipe l
         | 'g' | 'n' | 'e' | 'x' | 'l' | 'y' -> TFilter (flt_of c)
         | 'N' -> TNull
         | _ -> TOther) in
       it :: items () in
   items ()
-let parse_tree (s : string) : tree = next_sid := 0; TPipe (parse_items s)
+let parse_tree (s : string) : tree = next_sid := 0; Hashtbl.reset alias; broken_sids := []; TPipe (parse_items s)
 let ty_of i = function 'd' -> Debug | 'w' -> Warning | 'c' -> Critical
   | 'm' -> (match i land 3 with 0 -> Debug | 1 -> Info | 2 -> Warning | _ -> Critical) | _ -> Info
-let is_op_item it = it <> "" && (it.[0] = '+' || it.[0] = '^' || it.[0] = '~' || it.[0] = '!')
+let is_op_item it = it <> "" && (it.[0] = '+' || it.[0] = '^' || it.[0] = '~' || it.[0] = '!' || it.[0] = '&')
 let is_msg_item it = it <> "" && it.[0] <> 'f' && not (is_op_item it)
 (* ids of the z messages: logged while the device rejects writes *)
 let fault_ids (s : string) : int list =
@@ -90,13 +111,25 @@ let parse_op (it : string) : op =
   | '~' -> ORemove (path, nat_of_int (int_of_string arg))
   | _ -> OClearSinks path
 (* the whole history: messages get ids 0,1,..; f = explicit flush(); + ^ ~ ! = reconfigurations *)
-let parse_events (s : string) : event list * int =
+let ntmp = ref 0
+(* &<k>:<n> a second Logger with one file sink (next sink number) on the file of sink k logs n records *)
+let parse_scratch (it : string) : wevent =
+  let body = String.sub it 1 (String.length it - 1) in
+  let k, n = match String.split_on_char ':' body with
+    | [k; n] -> int_of_string k, int_of_string n
+    | _ -> failwith "&<k>:<n>" in
+  let i = !next_sid in incr next_sid; Hashtbl.replace alias i k;
+  WScratch (fresh (n_of_int i) false false,
+            List.init n (fun _ -> let j = !ntmp in incr ntmp; (Info, { rid = n_of_int (1000000 + j); rlen = n_of_int 11 })))
+let parse_events (s : string) : wevent list * int =
+  ntmp := 0; Hashtbl.reset blank;
   if s = "-" || s = "" then [], 0 else
   let items = List.filter (fun it -> it <> "") (String.split_on_char ',' s) in
   let id = ref 0 in
   let evs = List.concat_map (fun it ->
-    if it.[0] = 'f' then [EFlush]
-    else if is_op_item it then [EOp (parse_op it)]
+    if it.[0] = 'f' then [WEv EFlush]
+    else if it.[0] = '&' then [parse_scratch it]
+    else if is_op_item it then [WEv (EOp (parse_op it))]
     else begin
       let t = it.[0] in
       let body = String.sub it 1 (String.length it - 1) in
@@ -104,9 +137,15 @@ let parse_events (s : string) : event list * int =
         | [sz; cnt] -> int_of_string sz, int_of_string cnt
         | _ -> int_of_string body, 1 in
       List.init cnt (fun _ -> let i = !id in incr id;
-        EMsg (ty_of i t, { rid = n_of_int i; rlen = n_of_int (sz + 1) }))
+        if sz <= 0 then Hashtbl.replace blank i ();
+        WEv (EMsg (ty_of i t, { rid = n_of_int i; rlen = n_of_int (abs sz + 1) })))
     end) items in
   evs, !id
+let plain_events (wevs : wevent list) : event list =
+  List.concat_map (function WEv e -> [e] | WScratch _ -> []) wevs
+(* which file a sink logs to *)
+let fm (sd : n) : n = let i = int_of_n sd in n_of_int (try Hashtbl.find alias i with Not_found -> i)
+let shared_file k = Hashtbl.fold (fun _ f acc -> acc || f = k) alias false
 let ranges (l : int list) : string =
   let b = Buffer.create 64 in
   let flush_run a z = (if Buffer.length b > 0 then Buffer.add_char b ',');
@@ -148,13 +187,39 @@ let () =
     | [tr; en; ms; fs] ->
       (try
         let t = parse_tree tr in
-        let evs, k = parse_events ms in
-        let fatal = { rid = n_of_int k; rlen = n_of_int (int_of_string fs + 1) } in
+        let wevs, k = parse_events ms in
+        let evs = plain_events wevs in
+        let fatal = { rid = n_of_int k; rlen = n_of_int (abs (int_of_string fs) + 1) } in
+        if int_of_string fs <= 0 then Hashtbl.replace blank k ();
         (* the harness flushes before a z message, so nothing is buffered: the rejected write loses the record iff it
            goes straight to the device (block larger than QFile's 16 KiB chunk); a smaller one is only buffered *)
         let zs = fault_ids ms in
         let rej _ (r : rec0) = List.mem (int_of_n r.rid) zs && int_of_n r.rlen > 16384 in
         let sids = final_sids rej t evs in
+        if Hashtbl.length alias > 0 then begin
+          (* several sinks on one file: per-file output / oracle *)
+          if mode = "oracle" then begin
+            let fields = Array.of_list (String.split_on_char ';' files) in
+            let found (f : n) = let k = int_of_n f in
+              if k >= Array.length fields then None else
+              let x = fields.(k) in
+              if x = "X" || x = "G" || (x <> "" && x.[0] = '=') then None else Some (List.map n_of_int (unranges x)) in
+            print_endline (if prop_c11_w_b fm rej t wevs fatal found then "1" else "0")
+          end else begin
+            let st = if mode = "expected" then expected_w rej t wevs fatal
+              else if mode = "model-nth" then (if en = "kill" then w_nth_kill rej t wevs else w_nth_fatal rej t wevs fatal)
+              else (if en = "kill" then w_src_kill rej t wevs else w_src_fatal rej t wevs fatal) in
+            let live = List.map int_of_n (live_files fm st) and final = List.map int_of_n sids in
+            print_endline (String.concat ";" (List.init !next_sid (fun k ->
+              if Hashtbl.mem alias k then "=" ^ string_of_int (Hashtbl.find alias k)
+              else if List.mem k !broken_sids then (if List.mem k final then "X" else "G")
+              else if not (List.mem k live) then "G"
+              else begin
+                let ids = List.map int_of_n (List.concat (stream_ids fm (n_of_int k) st)) in
+                ranges (if shared_file k then List.sort compare ids else ids)
+              end)))
+          end
+        end else
         if mode = "oracle" then
           print_endline (if prop_c11_ev_b rej t evs fatal (unshow_by_sid sids files) then "1" else "0")
         else if mode = "expected" then print_endline (show_by_sid sids (expected_ids rej t evs fatal))
